@@ -498,6 +498,40 @@ class GX:
                 out.append(t)
         return out
 
+    def may_reps(self, method: str) -> List[str]:
+        """Token-type representatives for arbitrary-input exploration of `method`: what its own code can distinguish,
+        refined by the FIRST sets of the nonterminals of the callees it can reach (the stubs accept by FIRST)."""
+        import ast as _ast
+
+        self.method_follow_reps(method, [])  # fills the reachability cache
+        tables, consts = self._mreach[method]
+        src = core.Source.get("pycparser/c_parser.py")
+        callees = set()
+        seen, todo = set(), [method]
+        while todo:
+            m = todo.pop()
+            if m in seen or not src.has(f"CParser.{m}"):
+                continue
+            seen.add(m)
+            for n in _ast.walk(src.node(f"CParser.{m}")):
+                if isinstance(n, _ast.Attribute) and isinstance(n.value, _ast.Name) and n.value.id == "self":
+                    if n.attr.startswith("_parse_") and n.attr not in REAL_HELPERS:
+                        callees.add(n.attr)
+                    else:
+                        todo.append(n.attr)
+        firsts = []
+        for c in sorted(callees):
+            for nt in sorted(self.g.accepts.get(c, ())):
+                if nt in self.g.first:
+                    firsts.append(self.g.first[nt])
+        rep, out = {}, []
+        for t in self.token_types:
+            sig = tuple([t in tb for tb in tables] + [t in consts and t] + [t in f for f in firsts])
+            if sig not in rep:
+                rep[sig] = t
+                out.append(t)
+        return out
+
     def class_reps(self, types) -> List[str]:
         seen, out = set(), []
         for t in sorted(types):
@@ -1145,3 +1179,199 @@ def _walk(n):
     if isinstance(n, Group):
         for k in n.kids:
             yield from _walk(k)
+
+
+# --------------------------------------------------------------------------------------
+# may-mode: the real method on ARBITRARY token sequences (C18 bracket discipline, C06 on invalid input)
+# --------------------------------------------------------------------------------------
+class NeedMore(Exception):
+    def __init__(self, i):
+        self.i = i
+
+
+class WildStream:
+    """Token stream over a script of token types decided so far; looking beyond it asks the driver for more."""
+
+    def __init__(self, gx, script, run):
+        self.gx, self.script, self.run = gx, script, run
+        self._index = 0
+        self.toks = {}
+
+    def tok(self, i):
+        if i >= len(self.script):
+            # beyond an end-of-input slot everything is end of input
+            if self.script and self.script[-1] is None:
+                return None
+            raise NeedMore(i)
+        ty = self.script[i]
+        if ty is None:
+            return None
+        if i not in self.toks:
+            self.toks[i] = self.gx.Token(ty, self.gx.spelling(ty, i), 1, i + 1)
+        return self.toks[i]
+
+    def peek(self, k=1):
+        if k <= 0:
+            return None
+        for j in range(self._index, self._index + k - 1):
+            if self.tok(j) is None:
+                raise Refuted("peek(%d) past the end of input (the real stream would raise IndexError)" % k)
+        return self.tok(self._index + k - 1)
+
+    def next(self):
+        t = self.tok(self._index)
+        self.run.owner[self._index] = "self"
+        self._index += 1
+        return t
+
+    def mark(self):
+        return self._index
+
+    def reset(self, m):
+        for i in list(self.run.owner):
+            if i >= m:
+                del self.run.owner[i]
+        self._index = m
+
+
+class MayRun:
+    def __init__(self, gx: GX, method, script, args=(), kwargs=None):
+        self.gx, self.method, self.script = gx, method, list(script)
+        self.args, self.kwargs = args, kwargs or {}
+        self.owner: Dict[int, str] = {}
+        self.errors = []
+
+    def make_stub(self, name):
+        gx = self.gx
+        accepts0 = gx.g.accepts.get(name)
+        afn = getattr(gx.g, "accepts_fn", {}).get(name)
+
+        def stub(*a, **kw):
+            st = self.parser._tokens
+            i = st._index
+            accepts = afn(a, kw) if afn else accepts0
+            if not accepts:
+                raise StubMismatch(f"{name} has no nonterminal in the reference grammar")
+            t = st.tok(i)
+            pre = getattr(gx.g, "entry_pre", {}).get(name)
+            if pre is not None and (t is None or t.type not in pre):
+                raise Refuted(f"PRECONDITION: {name} is entered on {t.type if t else 'end of input'}, but it takes its first token "
+                              f"unchecked and may only be called on {sorted(pre)}")
+            first = set().union(*[gx.g.first[n] for n in accepts if n in gx.g.first])
+            nullable = any(gx.g.nullable.get(n, False) for n in accepts)
+            nt = sorted(accepts)[0]
+            if t is not None and t.type in first:
+                self.owner[i] = "stub"     # the callee consumes a construct starting here: balanced by its own contract
+                st._index = i + 1
+                m = Mark(nt, 9000 + i)
+                m.first = t.type
+                m.start = m.end = i
+                m.variant = 0
+                v = gx.value_of(m)
+            elif nullable:
+                m = Mark(nt, 9000 + i)
+                m.first = ""
+                m.start = m.end = i
+                v = gx.value_of(m)
+            else:
+                self.parser._parse_error("callee %s rejects this token" % name, gx.Coord("f.c", 1, i + 1))
+            if gx.g.nts[nt].args.get("apply"):
+                return v(*a, **kw)
+            return v
+        return stub
+
+    def execute(self):
+        gx = self.gx
+        p = object.__new__(gx.CParser)
+        p.clex = FakeLexer("f.c")
+        p._scope_stack = [dict()]
+        p._tokens = WildStream(gx, self.script, self)
+        self.parser = p
+        for name in gx.parse_methods:
+            if (name == self.method and name in REAL_RECURSIVE) or name in REAL_HELPERS:
+                continue
+            setattr(p, name, self.make_stub(name))
+        errs = self.errors
+
+        def parse_error(msg, coord):
+            errs.append((msg, coord))
+            raise gx.ParseError(f"{coord}: {msg}")
+        p._parse_error = parse_error
+        fn = gx.CParser.__dict__[self.method]
+        try:
+            fn(p, *self.args, **self.kwargs)
+        except NeedMore:
+            raise
+        except gx.ParseError:
+            msg, coord = errs[-1] if errs else ("?", None)
+            if not (isinstance(coord, gx.Coord) or coord == "f.c"):
+                return "bad-error-location", f"ParseError {msg!r} located at {coord!r} (neither a coordinate nor the file name)"
+            return "parse-error", ""
+        except (StubMismatch, Refuted) as e:
+            if str(e).startswith("PRECONDITION"):
+                return "unbalanced", str(e)
+            return "cut", str(e)
+        except RecursionError:
+            return "cut", "recursion"
+        except Exception as e:  # noqa
+            import traceback
+
+            tb = traceback.extract_tb(e.__traceback__)
+            where = [f"{f.name}:{f.lineno}" for f in tb if "pycparser" in f.filename]
+            return "exception", f"{type(e).__name__}: {e} at {where[-1] if where else '?'}"
+        end = p._tokens._index
+        stack = []
+        pairs = {"RPAREN": "LPAREN", "RBRACKET": "LBRACKET", "RBRACE": "LBRACE"}
+        for i in range(end):
+            if self.owner.get(i) != "self":
+                continue
+            ty = self.script[i] if i < len(self.script) else None
+            if ty == "PPHASH":
+                return "unbalanced", "a '#' directive token is consumed by a production that returns normally"
+            if ty in pairs.values():
+                stack.append(ty)
+            elif ty in pairs:
+                if not stack or stack[-1] != pairs[ty]:
+                    return "unbalanced", f"closer {ty} at token {i} does not match an opener consumed by the same invocation"
+                stack.pop()
+        if stack:
+            return "unbalanced", f"opener(s) {stack} consumed by the invocation are never closed by it"
+        return "ok", ""
+
+    def text(self):
+        return " ".join("<eof>" if t is None else (self.gx.spelling(t, i) + ("…" if self.owner.get(i) == "stub" else ""))
+                        for i, t in enumerate(self.script))
+
+
+def explore_may(gx: GX, method: str, args=(), kwargs=None, budget=3000, maxlen=9):
+    """Breadth-first over all token-type scripts the method can distinguish.  Returns (runs, outcomes Counter, findings, notes)."""
+    import collections
+
+    types = set(gx.token_types)
+    reps = gx.may_reps(method)
+    pre = getattr(gx.g, "entry_pre", {}).get(method)
+    work = collections.deque([[]] if pre is None else [[t] for t in sorted(pre)])
+    runs = 0
+    counts = collections.Counter()
+    findings = []
+    notes = []
+    while work:
+        script = work.popleft()
+        runs += 1
+        if runs > budget:
+            notes.append(f"budget of {budget} runs exhausted")
+            break
+        run = MayRun(gx, method, script, args, kwargs)
+        try:
+            kind, detail = run.execute()
+        except NeedMore:
+            if len(script) >= maxlen:
+                counts["cut-length"] += 1
+                continue
+            for t in reps + [None]:
+                work.append(script + [t])
+            continue
+        counts[kind] += 1
+        if kind in ("unbalanced", "exception", "bad-error-location"):
+            findings.append((kind, detail, run.text(), list(script)))
+    return runs, counts, findings, notes
